@@ -198,32 +198,38 @@ void SampledDimension::samplingInterval(double interval) {
 
 boost::optional<ndsize_t> getSampledIndex(const double position, const double offset, const double sampling_interval, const PositionMatch match) {
     boost::optional<ndsize_t> index;
-    if (position < offset && (match != PositionMatch::Greater && match != PositionMatch::GreaterOrEqual)) {
+    // indices are exact in double up to 2^53; positions that map beyond that (or NaN) have no index
+    const double max_index = 9007199254740992.0;
+    if (std::isnan(position) || std::isnan(offset) || !(sampling_interval > 0.0)) {
         return index;
     }
-    double tmp;
-    if (match == PositionMatch::Greater || match == PositionMatch::GreaterOrEqual) {
-        tmp = ceil((position - offset) / sampling_interval);
-        if (tmp < 0.0) {
-            tmp = 0.0;
-        }
-        bool equals = fabs(tmp * sampling_interval + offset - position) <= numeric_limits<double>::epsilon();
-        index = (match == PositionMatch::Greater && equals) ? static_cast<ndsize_t>(tmp + 1) : static_cast<ndsize_t>(tmp);
-    } else if (match == PositionMatch::Less || match == PositionMatch::LessOrEqual) {
-        tmp = floor((position - offset) / sampling_interval);
-        bool equals = fabs(tmp * sampling_interval + offset - position) <= numeric_limits<double>::epsilon();
-        if (match == PositionMatch::Less && equals) { 
-            if (tmp >= 1) {
-                index = static_cast<ndsize_t>(tmp - 1);
-            } 
-        } else {
-            index = static_cast<ndsize_t>(tmp);
-        }
-    } else {
-        tmp = round((position - offset) / sampling_interval);
-        if (fabs(tmp * sampling_interval + offset - position) <= numeric_limits<double>::epsilon()) {
-            index = static_cast<ndsize_t>(tmp);
-        }
+    // k: largest index whose sample position (k * sampling_interval + offset, cf. positionAt) is
+    // less than or equal to position, -1 if there is none. The estimate obtained by the division
+    // is corrected by exact comparisons with the neighbouring sample positions.
+    double k = floor((position - offset) / sampling_interval);
+    if (!(k < max_index)) {
+        return index;
+    }
+    if (k < -1.0) {
+        k = -1.0;
+    }
+    for (int i = 0; i < 4 && k >= 0.0 && (k * sampling_interval + offset) > position; ++i) {
+        k -= 1.0;
+    }
+    for (int i = 0; i < 4 && ((k + 1.0) * sampling_interval + offset) <= position; ++i) {
+        k += 1.0;
+    }
+    const bool equals = k >= 0.0 && (k * sampling_interval + offset) == position;
+    double res = -1.0;
+    switch (match) {
+    case PositionMatch::LessOrEqual:    res = k; break;
+    case PositionMatch::Less:           res = equals ? k - 1.0 : k; break;
+    case PositionMatch::GreaterOrEqual: res = equals ? k : k + 1.0; break;
+    case PositionMatch::Greater:        res = k + 1.0; break;
+    case PositionMatch::Equal:          res = equals ? k : -1.0; break;
+    }
+    if (res >= 0.0) {
+        index = static_cast<ndsize_t>(res);
     }
     return index;
 }
@@ -406,11 +412,11 @@ boost::optional<ndsize_t> getSetIndex(const double position, std::vector<std::st
         }
         
 
-        bool equals = fabs(tmp - position) <= numeric_limits<double>::epsilon();
+        bool equals = tmp == position;
         index = (match == PositionMatch::Greater && equals) ? static_cast<ndsize_t>(tmp + 1) : static_cast<ndsize_t>(tmp);
     } else if (match == PositionMatch::Less || match == PositionMatch::LessOrEqual) {
         tmp = floor(position);
-        bool equals = fabs(tmp - position) <= numeric_limits<double>::epsilon();
+        bool equals = tmp == position;
         if (match == PositionMatch::Less && equals) { 
             if (tmp >= 1) {
                 index = static_cast<ndsize_t>(tmp - 1);
@@ -420,7 +426,7 @@ boost::optional<ndsize_t> getSetIndex(const double position, std::vector<std::st
         }
     } else {
         tmp = round(position);
-        if (fabs(tmp - position) <= numeric_limits<double>::epsilon()) {
+        if (tmp == position) {
             index = static_cast<ndsize_t>(tmp);
         }
     }
@@ -802,11 +808,11 @@ boost::optional<ndsize_t> getDataFrameIndex(const double position, const ndsize_
             tmp = 0.0;
         }
 
-        bool equals = fabs(tmp - position) <= numeric_limits<double>::epsilon();
+        bool equals = tmp == position;
         index = (match == PositionMatch::Greater && equals) ? static_cast<ndsize_t>(tmp + 1) : static_cast<ndsize_t>(tmp);
     } else if (match == PositionMatch::Less || match == PositionMatch::LessOrEqual) {
         tmp = floor(position);
-        bool equals = fabs(tmp - position) <= numeric_limits<double>::epsilon();
+        bool equals = tmp == position;
         if (match == PositionMatch::Less && equals) { 
             if (tmp >= 1) {
                 index = static_cast<ndsize_t>(tmp - 1);
@@ -816,7 +822,7 @@ boost::optional<ndsize_t> getDataFrameIndex(const double position, const ndsize_
         }
     } else {
         tmp = round(position);
-        if (fabs(tmp - position) <= numeric_limits<double>::epsilon()) {
+        if (tmp == position) {
             index = static_cast<ndsize_t>(tmp);
         }
     }
